@@ -96,6 +96,12 @@ CHECKS = {
         text="Hundreds (quick) to thousands (thorough) of texts of 1-64 KB from fill_to_capacity_with_tokens with the CLI's arguments, and from the real `penne fuzz tokens --kb N --out-dir D`, must be valid UTF-8 of at least N KiB and lex without a single error in both lexers; the evidence lists the token-kind histogram and the (previous family, next family, glued) adjacency pairs observed.",
         note="Reach is over the fuzzer's internal random choices; seeds are recorded so a failing text can be regenerated, and the text itself is saved in the replay file.",
         design="5 C19"),
+    "C15": dict(
+        category="exploration",
+        technique="runtime monitor + sanitizers: exit-state classifier over isolated workers, Miri (UB interpreter) and AddressSanitizer on the second-generation front end",
+        text="The sequence of compile_to_ir_using_delta (lex, errors, parse, errors, XML, header, XML) runs on random bytes, mutated corpus with invalid UTF-8/NUL, token soup, exhaustive short token sequences in three contexts, nesting up to 256, density and size stress up to 256 KiB in isolated workers (debug assertions + overflow checks; release for the large ones); every exit state is classified; well-formed shapes must be accepted, injected invalid lexemes rejected, E102/E103 only when a limit is truly exceeded. The same operations are interpreted by Miri on reduced-size inputs reaching every shape (uninitialised reads, out-of-bounds, invalid set_len) and executed under AddressSanitizer on thousands of inputs.",
+        note="Miri: default checks, isolation disabled only to read the input files. Known stack overflows on >= 10^4-element lists are listed as findings. 'Terminates' in bounded form.",
+        design="5 C15 / 6"),
 }
 
 
